@@ -180,6 +180,18 @@ func (sb *seqbag) AddSequenceChar(name string, sequence []uint8, comment string)
 	return nil
 }
 
+// reindexNames rebuilds the name index after sequence names have been changed in place,
+// so that lookups by name keep agreeing with lookups by index and iteration.
+// If several sequences end up with the same name, the first one is indexed.
+func (sb *seqbag) reindexNames() {
+	sb.seqmap = make(map[string]*seq, len(sb.seqs))
+	for _, seq := range sb.seqs {
+		if _, ok := sb.seqmap[seq.name]; !ok {
+			sb.seqmap[seq.name] = seq
+		}
+	}
+}
+
 // Append a string to all sequence names of the alignment
 // If right is true, then append it to the right of each names,
 // otherwise, appends it to the left
@@ -192,6 +204,7 @@ func (sb *seqbag) AppendSeqIdentifier(identifier string, right bool) {
 				seq.name = identifier + seq.name
 			}
 		}
+		sb.reindexNames()
 	}
 }
 
@@ -285,6 +298,7 @@ func (sb *seqbag) CleanNames(namemap map[string]string) {
 			namemap[old] = seq.name
 		}
 	}
+	sb.reindexNames()
 }
 
 // Removes all the sequences from the seqbag
@@ -808,6 +822,7 @@ func (sb *seqbag) Rename(namemap map[string]string) {
 		// 	io.PrintMessage("Sequence " + a.seqs[seq].name + " not present in the map file")
 		// }
 	}
+	sb.reindexNames()
 }
 
 // Shuffle the order of the sequences in the alignment
@@ -835,6 +850,7 @@ func (sb *seqbag) RenameRegexp(regex, replace string, namemap map[string]string)
 		namemap[sb.seqs[seq].name] = newname
 		sb.seqs[seq].name = newname
 	}
+	sb.reindexNames()
 	return nil
 }
 
@@ -1132,6 +1148,7 @@ func (sb *seqbag) TrimNamesAuto(namemap map[string]string, curid *int) (err erro
 		}
 		seq.name = newname
 	}
+	sb.reindexNames()
 	return
 }
 
